@@ -229,6 +229,7 @@ impl Engine for C15 {
             min_len: if sub == "cgr" { 0 } else { 1 },
             dup_pct: 15,
             tab_desc_pct: 0,
+            dup_id_pct: 0,
         };
         let mut records = g.gen(rng);
         if (sub == "oligo" || sub == "kcgr") && k >= 6 {
